@@ -389,3 +389,146 @@ def rule_negative_count_slices(ck, repo, R, funcs):
                           f'{"everything" if node.slice.lower is not None and src(node.slice.lower) in bad else "nothing"} (empty reaction side mishandled)',
                           file=f.file, line=node.lineno, func=f.qualname, construct=src(node))
     ck.count(f'{R} slices', n_sl)
+
+
+# -- F-fsm2: one-step exploration of the tokenizer over a finite set of (state, character) pairs -------------------------------------------------
+class _Unk(Exception):
+    pass
+
+
+class _Raised(Exception):
+    pass
+
+
+_UNKNOWN = object()
+
+
+def _tv(e, env):
+    """evaluate a guard of the tokenizer loop over concrete small values; anything else is _Unk"""
+    if isinstance(e, ast.Constant):
+        return e.value
+    if isinstance(e, ast.Name):
+        if e.id in env:
+            v = env[e.id]
+            if v is _UNKNOWN:
+                raise _Unk(f'value of {e.id} not tracked')
+            return v
+        raise _Unk(e.id)
+    if isinstance(e, ast.Tuple):
+        return tuple(_tv(x, env) for x in e.elts)
+    if isinstance(e, ast.UnaryOp) and isinstance(e.op, ast.Not):
+        return not _tv(e.operand, env)
+    if isinstance(e, ast.BoolOp):
+        if isinstance(e.op, ast.And):
+            for x in e.values:
+                if not _tv(x, env):
+                    return False
+            return True
+        for x in e.values:
+            if _tv(x, env):
+                return True
+        return False
+    if isinstance(e, ast.Compare):
+        left = _tv(e.left, env)
+        for op, c in zip(e.ops, e.comparators):
+            right = _tv(c, env)
+            try:
+                r = {ast.Eq: lambda a, b: a == b, ast.NotEq: lambda a, b: a != b, ast.In: lambda a, b: a in b, ast.NotIn: lambda a, b: a not in b,
+                     ast.Is: lambda a, b: a is b, ast.IsNot: lambda a, b: a is not b, ast.Lt: lambda a, b: a < b, ast.Gt: lambda a, b: a > b,
+                     ast.LtE: lambda a, b: a <= b, ast.GtE: lambda a, b: a >= b}[type(op)](left, right)
+            except TypeError:
+                raise _Unk('comparison of unlike values')
+            if not r:
+                return False
+            left = right
+        return True
+    if isinstance(e, ast.Call) and isinstance(e.func, ast.Attribute) and e.func.attr in ('isnumeric', 'isdigit', 'isdecimal') and not e.args:
+        return str(_tv(e.func.value, env)).isdigit()
+    if isinstance(e, ast.Call) and isinstance(e.func, ast.Name) and e.func.id == 'len' and len(e.args) == 1:
+        return len(_tv(e.args[0], env))
+    raise _Unk(ast.dump(e)[:50])
+
+
+def _step(body, env):
+    """abstractly execute one iteration of the character loop; raises _Raised when the tokenizer rejects"""
+    for s in body:
+        if isinstance(s, ast.If):
+            if _tv(s.test, env):
+                _step(s.body, env)
+            else:
+                _step(s.orelse, env)
+        elif isinstance(s, ast.Raise):
+            raise _Raised()
+        elif isinstance(s, ast.Assign):
+            v = _UNKNOWN
+            if isinstance(s.value, ast.Constant):
+                v = s.value.value
+            elif isinstance(s.value, ast.List) and not s.value.elts:
+                v = []
+            elif isinstance(s.value, ast.Name) and s.value.id in env:
+                v = env[s.value.id]
+            for t in s.targets:
+                if isinstance(t, ast.Name):
+                    env[t.id] = v
+        elif isinstance(s, ast.Expr) and isinstance(s.value, ast.Call) and isinstance(s.value.func, ast.Attribute) and \
+                isinstance(s.value.func.value, ast.Name) and s.value.func.attr == 'append':
+            tgt = s.value.func.value.id
+            if isinstance(env.get(tgt), list) and tgt != 'tokens':
+                a = s.value.args[0]
+                env[tgt] = env[tgt] + [env[a.id] if isinstance(a, ast.Name) and a.id in env else _UNKNOWN]
+        elif isinstance(s, (ast.Expr, ast.Pass, ast.Continue)):
+            pass
+        elif isinstance(s, ast.Try):
+            _step(s.body, env)
+        else:
+            raise _Unk(type(s).__name__)
+
+
+def rule_tokenizer_rejections(ck, repo, R):
+    ck.rule(R, 'one-step exploration of the _tokenize character loop over a finite table of (tokenizer state, pending token, character): every '
+               'combination the SMILES grammar forbids is rejected (raise) -- a closure number starting with 0 in EVERY state (also while a C / B is '
+               'pending for the Cl / Br look-ahead), % not followed by two digits, [ inside [ and ] without [, ( or ) or a closure right after (')
+    f = repo.func('chython.files.daylight.tokenize:_tokenize')
+    ck.require(f is not None, '_tokenize not found')
+    loop = next((s for s in f.node.body if isinstance(s, ast.For)), None)
+    ck.require(loop is not None and isinstance(loop.target, ast.Name), '_tokenize: character loop not found')
+    ch = loop.target.id
+    plain = [(None, None), (0, None), (0, 'C'), (0, 'B'), (1, None), (3, None), (4, None), (6, None), (8, None), (9, None)]
+    table = []
+    for tt, tok in plain:
+        table.append((tt, tok, '0', 'closure number 0'))
+    table.append((7, [], '0', '%0x'))
+    for tok in ([], ['1']):
+        for c in ('C', '(', '=', '.', '%', 'c', '['):
+            table.append((7, tok, c, '% not followed by two digits'))
+    table.append((5, [], '[', '[ inside ['))
+    table.append((5, ['C'], '[', '[ inside ['))
+    for tt, tok in plain:
+        table.append((tt, tok, ']', '] without ['))
+    for c in ('(', ')', '1', '%'):
+        table.append((2, None, c, f'{c} right after ('))
+    must_pass = [(None, None, 'C'), (0, 'C', '1'), (0, 'C', 'l'), (0, None, '('), (6, None, '2'), (7, [], '1'), (7, ['1'], '0'), (5, ['C'], 'H'), (0, 'C', '%')]
+    for tt, tok, c, why in table:
+        env = {'token_type': tt, 'token': list(tok) if isinstance(tok, list) else tok, ch: c, 'tokens': []}
+        try:
+            _step(loop.body, env)
+            rejected = False
+        except _Raised:
+            rejected = True
+        except _Unk as e:
+            raise AnalysisError(f'_tokenize: step not understood for state {tt}/{tok!r} char {c!r}: {e}')
+        ck.decide(rejected, R, f'reject:{tt}:{tok!r}:{c}', why,
+                  f'_tokenize in state token_type={tt}, pending token={tok!r} accepts the character {c!r} ({why}): a string outside the language is tokenised '
+                  f'instead of rejected', file=f.file, line=loop.lineno, func='_tokenize')
+    for tt, tok, c in must_pass:  # anti-vacuity: the exploration distinguishes accept from reject
+        env = {'token_type': tt, 'token': list(tok) if isinstance(tok, list) else tok, ch: c, 'tokens': []}
+        try:
+            _step(loop.body, env)
+            ok = True
+        except _Raised:
+            ok = False
+        except _Unk as e:
+            raise AnalysisError(f'_tokenize: step not understood for state {tt}/{tok!r} char {c!r}: {e}')
+        ck.decide(ok, R, f'accept:{tt}:{tok!r}:{c}', None, f'_tokenize in state token_type={tt}, pending token={tok!r} rejects the legal character {c!r}',
+                  file=f.file, line=loop.lineno, func='_tokenize')
+    ck.floor(R, 40)
